@@ -119,9 +119,46 @@ def _bounds_struct(e: E, env, depth):
                 return (alo << blo, ahi << bhi)
         return (tlo, thi)
     if op == 'iand':
-        for x in e.args:
+        for x, y in ((e.args[0], e.args[1]), (e.args[1], e.args[0])):
             if x.is_const and x.val >= 0:
+                ylo, yhi = _bounds(y, env, depth)
+                low = x.val & -x.val if x.val else 0
+                if ylo is not None and ylo >= 0 and yhi is not None and yhi < low:
+                    return (0, 0)
+                if ylo is not None and ylo >= 0 and yhi is not None:
+                    m = x.val
+                    k = (m & -m).bit_length() - 1 if m else 0
+                    top = m >> k
+                    if m and (top & (top + 1)) == 0 and yhi < (1 << (k + top.bit_length())):
+                        return (ylo & m, yhi & m)            # contiguous high-bit mask: monotone
+                    if m and (m & (m + 1)) == 0 and (ylo >> m.bit_length()) == (yhi >> m.bit_length()):
+                        return (ylo & m, yhi & m)            # low mask within one period
+                    return (0, min(m, yhi))
                 return (0, x.val)
+        return (tlo, thi)
+    if op == 'ior':
+        for x, y in ((e.args[0], e.args[1]), (e.args[1], e.args[0])):
+            if x.is_const and x.val >= 0:
+                ylo, yhi = _bounds(y, env, depth)
+                low = x.val & -x.val if x.val else (1 << 70)
+                if ylo is not None and ylo >= 0 and yhi is not None and yhi < low:
+                    return (x.val + ylo, x.val + yhi)
+        return (tlo, thi)
+    if op in ('ftoi_unchecked',) or (op == 'cast' and e.args and X.is_float(e.args[0].ty)):
+        from .frange import frange
+        import math
+        lo, hi, nan = frange(e.args[0])
+        if op == 'cast' and nan:
+            lo = min(lo, 0.0); hi = max(hi, 0.0)
+        l = tlo if lo == -math.inf or lo != lo else max(tlo, int(math.floor(lo)) if lo < 0 else int(lo))
+        l = tlo if lo == -math.inf else max(tlo, math.trunc(lo) if abs(lo) < 1e300 else tlo)
+        h = thi if hi == math.inf else min(thi, math.trunc(hi) if abs(hi) < 1e300 else thi)
+        return (min(l, h), max(l, h))
+    if op == 'cast:bits' and e.args and X.is_float(e.args[0].ty):
+        from .frange import frange
+        lo, hi, nan = frange(e.args[0])
+        if not nan and lo >= 0 and hi < float('inf'):
+            return (X.fbits(e.args[0].ty, max(lo, 0.0)), X.fbits(e.args[0].ty, hi))
         return (tlo, thi)
     if op in ('icast',):
         return _bounds(e.args[0], env, depth)
